@@ -50,8 +50,15 @@ def mat(m):
     return np.array([[rat(x) for x in row] for row in m], dtype=float)
 
 
-def case_inputs(case):
+DELTAS = (1e-5, 1e-7)   # perturbation sizes for the nearly degenerate (limit) cases
+
+
+def case_inputs(case, delta=None):
     A = np.array([mat(a) for a in case["As"]])
+    if case.get("limit"):
+        from scipy.linalg import expm
+
+        A[0] = expm((delta if delta is not None else DELTAS[1]) * mat(case["W"])) @ A[0]
     L = mat(case["L"])
     f = np.array([rat(x) for x in case["f"]], dtype=float)
     return A, L, f
@@ -65,6 +72,8 @@ def expected(case, par):
         evalterm.run_program(defs, env)
         # conditioning of the guarded least-squares quotient: 1 / R1(bi, bm)
         g0def = next(d for n_, d in defs if n_ == f"g0_{g}")
+        if g0def[0] == "mul":  # limit case: delta * gdivpoly(...)
+            g0def = g0def[2]
         den = evalterm.ev(["polyat", g0def[2], g0def[3], g0def[4]], env)
         if abs(den) > 0:
             kappa = max(kappa, 1.0 / abs(den))
@@ -76,7 +85,7 @@ def expected(case, par):
 
 def call_impl(core, case, par):
     phase, fabric = FAB[case["fab"]]
-    A, L, f = case_inputs(case)
+    A, L, f = case_inputs(case, par.get("delta"))
     D = (L + L.T) / 2
     n = len(f)
     return core.derivatives(
@@ -94,8 +103,13 @@ def flagged(case):
     return any(case["tie"]) or any(case["dead"]) or any(case["unresolved"])
 
 
-def tol(exact, kappa):
-    return 1e-9 * max(1.0, float(np.abs(exact).max()) if np.size(exact) else 1.0) * kappa + 1e-12
+def tol(exact, kappa, delta=None):
+    scale = max(1.0, float(np.abs(exact).max()) if np.size(exact) else 1.0) * kappa
+    if delta is not None:
+        # first-order limit: the expected value is exact up to O(delta) (relative); constant 500 covers the
+        # derivative of the rates with respect to the perturbation on the enumerated domain
+        return 500.0 * delta * scale + 1e-9
+    return 1e-9 * scale + 1e-12
 
 
 # ---------------------------------------------------------------- interpreted (no-JIT) path
